@@ -27,7 +27,25 @@ operation by operation, with the Lean model's local step function AND with its
 remote step function (wire encoding -> server step -> wire decoding), on both
 sides.
 
-Mutants this was built against: see the report / docstring tail.
+Findings on the unchanged tree (families computed by `_family` from the failing step):
+  get-parent-map-null-dropped: RemoteRepository.get_parent_map([... b"null:" ...]) loses the
+    null: entry whenever another key is requested as well (dead `found_parents` in
+    _get_parent_map_rpc); modelled by `fx` (the harness probes the variant).
+  generate-revision-history-of-absent-tip: after set_last_revision_info(n, X) with X absent from the
+    repository, generate_revision_history(X) succeeds locally and is NoSuchRevision remotely.
+Error classes are compared modulo EQUIV_ERRORS (the server verb documents that it reports an absent
+revision as NoSuchRevision where the local code raises GhostRevisionsHaveNoRevno).
+
+Mutants this was built against (scratch worktree, all semantic ones caught by the oracle with the failing step):
+  M1 server Branch.set_last_revision_info stores revno-1            -> state:tip differs (set_tip, ck_commit, m_tip_set)
+  M2 server Branch.unlock forgets dont_leave_lock_in_place          -> state:locked differs after any locked verb
+  M3 client parses a parentless line as () instead of (null:,)      -> result of parent_map differs + T2 (remote side)
+  M4 server set_config_option swaps name and value                   -> state:conf differs (conf_set_old)
+  M5 server set_tags_bytes does not write                            -> state:tags differs
+  M6 client keeps a stale last_revision_info cache after set tip     -> result of set_tip (read back under the lock)
+  M7 SmartServerLockedBranchRequest ignores the client's token       -> E:LockContention through the server
+  (M8 server sends parents (null:,) on the wire instead of ()        -> gen_history: E:ReservedId through the server)
+  H1 `token == b"" -> None` rewritten as `token or None` (harmless)  -> same result as the unchanged tree
 """
 import os
 import shutil
@@ -45,6 +63,8 @@ RULE = ("case = an operation script of <= 20 operations (commit in source trees 
 ASSUMPTIONS = [
     "the server is breezy's own SmartTCPServer run in a thread of the same process (127.0.0.1, protocol v3)",
     "revision ids, file ids, timestamps and committers are chosen by the script so that both sides can be compared byte for byte",
+    "error classes are compared modulo GhostRevisionsHaveNoRevno == NoSuchRevision (documented translation of the server verb)",
+    "model hypotheses: revision ids on the get_parent_map wire are non-empty, contain no blank / newline and do not start with 'missing:'",
 ]
 TRUSTED = [
     "lock tokens are nonces: only their presence is compared",
@@ -263,13 +283,15 @@ def do_op(side, op, n):
             _, revno, revid = op
             t = side.T()
             with t.lock_write():
+                before = t.last_revision_info()
                 t.set_last_revision_info(revno, revid.encode())
-            return "ok"
+                # read back through the same, still locked, object (client-side caches)
+                return canon((before, t.last_revision_info(), t.last_revision()))
         if k == "gen_history":
             t = side.T()
             with t.lock_write():
                 t.generate_revision_history(op[1].encode())
-            return "ok"
+                return canon(t.last_revision_info())
         if k == "ck_commit":
             _, files, revid = op
             if side.K is None:
